@@ -142,7 +142,7 @@ def project(raw_path, info):
         fact = {"enc": ini["enc"], "mode": ini["mode"], "adderr": next((e["err"] for e in evs if e["ev"] == "adderr"), None),
                 "reading": None, "portrx": sum(1 for e in evs if e["ev"] == "portrx"),
                 "advpex": sum(1 for e in evs if e["ev"] == "exths_rx" and e.get("advpex")),
-                "skips": [e["what"] for e in evs if e["ev"] == "skip"]}
+                "skips": [e["what"] for e in evs if e["ev"] == "skip"], "stray": sum(1 for e in evs if e["ev"] == "stray")}
         info[sid] = fact
         if fact["adderr"] is not None or not fin:
             continue
@@ -178,6 +178,8 @@ def project(raw_path, info):
                 a.append({"ev": "exths", "p": KIND[e["peer"]]})
             elif k in ("pexmsg", "port"):
                 a.append({"ev": k, "p": KIND[e["peer"]]})
+            elif k == "dial" and not e.get("hs"):
+                fact["unattributed"] = fact.get("unattributed", 0) + 1     # no handshake could be read: not attributable to the torrent
             elif k == "dial":
                 a.append({"ev": "dial", "src": e["src"], "who": "t1" if e["who"] in ("t1", "?") else "sib", "lst": e["lst"]})
             elif k == "pexrx":
@@ -315,6 +317,8 @@ def scenarios_level(ctx):
     ctx.extra["ambiguous_encodings"] = sorted(e for e in table if e not in INTENDED)
     ctx.extra["port_messages_sent_to_peers_of_private_torrents"] = sum(f["portrx"] for f in info.values() if f.get("priv"))
     ctx.extra["extension_handshakes_advertising_ut_pex_on_private_torrents"] = sum(f["advpex"] for f in info.values() if f.get("priv"))
+    ctx.extra["connections_without_handshake_not_judged"] = sum(f.get("unattributed", 0) for f in info.values())
+    ctx.extra["stray_requests_of_other_harness_processes_ignored"] = sum(f.get("stray", 0) for f in info.values())
     ctx.extra["harness_skips"] = sorted({w for f in info.values() for w in f["skips"]})
     if len(abstract) < 0.9 * (len(scs) - sum(1 for f in info.values() if f["adderr"] is not None)):
         raise vlib.MachineryError("only %d of %d scenarios produced a judgeable trace" % (len(abstract), len(scs)))
